@@ -3,15 +3,19 @@
 
 use crate::model::{KeySpec, Proto};
 
-/// fixtures 0..=4 are RSA-2048 (the only size v1.public signs with); 5 and 6 are 3072/4096-bit pairs used
+/// fixtures 0..=6 are RSA-2048 (the only size v1.public signs with); 7 and 8 are 3072/4096-bit pairs used
 /// only as *verifier* keys against byzantine text
-pub const RSA_2048_FIXTURES: usize = 5;
-pub static RSA_FIXTURES: [(&[u8], &[u8]); 7] = [
+pub const RSA_2048_FIXTURES: usize = 7;
+pub static RSA_FIXTURES: [(&[u8], &[u8]); 9] = [
     (include_bytes!("../../fixtures/rsa/k0.pk8"), include_bytes!("../../fixtures/rsa/k0.pub.der")),
     (include_bytes!("../../fixtures/rsa/k1.pk8"), include_bytes!("../../fixtures/rsa/k1.pub.der")),
     (include_bytes!("../../fixtures/rsa/k2.pk8"), include_bytes!("../../fixtures/rsa/k2.pub.der")),
     (include_bytes!("../../fixtures/rsa/k3.pk8"), include_bytes!("../../fixtures/rsa/k3.pub.der")),
     (include_bytes!("../../fixtures/rsa/k4.pk8"), include_bytes!("../../fixtures/rsa/k4.pub.der")),
+    // the shortest and the longest PKCS#8 encodings an RSA-2048 key can have (1215 and 1219 bytes: leading
+    // sign octets of d, dP, dQ, qInv)
+    (include_bytes!("../../fixtures/rsa/k1215.pk8"), include_bytes!("../../fixtures/rsa/k1215.pub.der")),
+    (include_bytes!("../../fixtures/rsa/k1219.pk8"), include_bytes!("../../fixtures/rsa/k1219.pub.der")),
     (include_bytes!("../../fixtures/rsa/k3072.pk8"), include_bytes!("../../fixtures/rsa/k3072.pub.der")),
     (include_bytes!("../../fixtures/rsa/k4096.pk8"), include_bytes!("../../fixtures/rsa/k4096.pub.der")),
 ];
